@@ -25,7 +25,7 @@ rundemo() {
 }
 APPLY=0; if git apply --check "$PATCH" 2>/dev/null; then git apply "$PATCH" && APPLY=1; elif patch -p1 -s --dry-run -i "$PATCH" >/dev/null 2>&1; then patch -p1 -s -i "$PATCH" && APPLY=1; fi
 WITH=$(rundemo /tmp/sv/${ID}_${K}.with.log)
-timeout 1500 /venv/bin/python -m pytest -q -p no:cacheprovider --timeout=900 --continue-on-collection-errors --ignore=_seed -rfE tests 2>&1 | grep -E "^(FAILED|ERROR) " | sed 's/ - .*//' | sort > /tmp/sv/${ID}_${K}.failed.txt
+/tmp/sv/runsuite.sh "$WT" /tmp/sv/${ID}_${K}.failed.txt 6 >/dev/null; cd "$WT"
 git checkout -- kopf
 WITHOUT=$(rundemo /tmp/sv/${ID}_${K}.without.log)
 NEWFAIL=$(comm -23 /tmp/sv/${ID}_${K}.failed.txt "$BASE" | wc -l)
